@@ -246,6 +246,22 @@ def aggregate(prop, tier, seed, contracts, results, split_errors, known, t_start
         suffix = '' if confirmed is not None else ' no-failing-input-found'
         violations.append((f'VIOLATION property={prop} replay={rpath}{suffix}', rec))
 
+    # ---- bounded stand-ins for functions that are outside the verified subset (labelled bounded, never counted as proved)
+    bounded = []
+    for u in unproved:
+        ci = REGISTRY[u['contract']]
+        n = 2000 if tier == 'quick' else 20000
+        ran, hit = verify.bounded_standin(ci, n, rng)
+        bounded.append({'contract': ci.name, 'function': ci.target or ci.const or ci.name, 'bound': f'{n} random inputs from the contract input builder (sequence lengths <= 4, integers in [-6, 6])', 'cases': ran,
+                        'failed': bool(hit)})
+        if hit is not None:
+            hit['property'] = prop
+            hit['failed_obligation'] = f"{prop}/{ci.name}/{hit['obligation']}"
+            rpath = os.path.join(OUT, 'replays', f"{prop}-{ci.name}-bounded.json")
+            with open(rpath, 'w') as f:
+                json.dump(hit, f, indent=1, default=str)
+            violations.append((f'VIOLATION property={prop} replay={rpath}', hit))
+
     wall = time.time() - t_start
     level = 'proof' if (not unproved and not undecided and discharged == obligations and obligations > 0) else 'other'
     trusted = sorted({a for ci in contracts for a in getattr(ci.pycls, 'assumes', ())}
@@ -260,6 +276,7 @@ def aggregate(prop, tier, seed, contracts, results, split_errors, known, t_start
         'solver_time_s': round(solver_time, 2),
         'samples': samples,
         'unproved_functions': unproved,
+        'bounded': bounded,
         'undecided': [f"{n}/{it['oid']}" for n, it in undecided][:20],
         'known_findings_reproduced': [l for l in known_lines if l.startswith('KNOWN-FINDING')],
         'violations_reported': [v[0] for v in violations],
